@@ -48,3 +48,26 @@ def prepare(names=None, build=True):
     if build:
         vlib.cargo_build(["model-driver"])
     return out
+
+
+COMP_SRC = os.path.join(vlib.HARNESS, "comp-driver", "src")
+
+
+def prepare_component_driver():
+    """the same driver against a process_root() component build (real rustc per rule library)"""
+    prepare(build=False)
+    every = all_names()
+    for f in os.listdir(COMP_SRC):
+        if f.endswith(".eql") and f[:-4] not in every:
+            os.remove(os.path.join(COMP_SRC, f))
+    pairs = []
+    for n in every:
+        src = os.path.join(THEORIES, n + ".eql")
+        dst = os.path.join(COMP_SRC, n + ".eql")
+        if not os.path.exists(dst) or open(dst).read() != open(src).read():
+            shutil.copyfile(src, dst)
+        sig, _ = eql.load(src)
+        pairs.append((sig, os.path.join(GEN_OUT, n + ".eql.rs")))
+    gen_adapter.write_all(pairs, os.path.join(COMP_SRC, "gen"),
+                          include_fmt='concat!(env!("EQLOG_OUT_DIR"), "/comp-driver/src/{theory}.eql.rs")')
+    vlib.cargo_build(["comp-driver"], timeout=7200)
